@@ -8,12 +8,14 @@ R:   every dumped behaviour is concretised, emitted with the real emitter, rende
 import random
 
 from harness import conv
+from harness import gamma as G
 from harness.common import NCPU
 
 FMTS = '{"class", "pydantic", "function", "argparse"}'
 
 
 def check(run, replay=None):
+    G.OPENERS[0] = G.DOC_OPENERS      # (inherited by the forked replay workers)
     run.rule = ("case = (format, docstring style, emit_default_doc, [type_annotations, kw-only]) x signature-legal interface of "
                 "0..2 typed parameters (14 type shapes x compatible defaults x 2 description kinds) + optional return entry (with a literal / "
                 "code-quoted / None default when there are <= 1 parameters); "
